@@ -1,6 +1,7 @@
 package props
 
 import (
+	"errors"
 	"bytes"
 	"encoding/json"
 	"fmt"
@@ -94,6 +95,14 @@ func c14vars(log *[]string) jet.VarMap {
 	vars.Set("fvs", func(parts ...string) string { return rec(fmt.Sprintf("fvs(%q)", parts)) })
 	vars.Set("fi2", func(a, b int) string { return rec(fmt.Sprintf("fi2(%d,%d)", a, b)) })
 	vars.Set("fany", func(a interface{}) string { return rec(fmt.Sprintf("fany(%v)", a)) })
+	vars.Set("fnoerr", func(a string) error { rec("fnoerr(" + a + ")"); return nil })
+	vars.Set("fsomeerr", func(a string) error { rec("fsomeerr(" + a + ")"); return errors.New("E:" + a) })
+	vars.Set("fdescribe", func(e error) string {
+		if e == nil {
+			return rec("fdescribe(nil)")
+		}
+		return rec("fdescribe(" + e.Error() + ")")
+	})
 	vars.Set("fptr", func(a *c14valObj) string { return rec(fmt.Sprintf("fptr(%v)", a == nil)) })
 	vars.Set("fsl", func(a []string) string { return rec(fmt.Sprintf("fsl(%v)", a)) })
 	vars.Set("fmp", func(a map[string]int) string { return rec(fmt.Sprintf("fmp(%v)", a)) })
@@ -318,6 +327,26 @@ func c14calleeKind(cal c14callee) string {
 
 // chains: a pipeline is evaluated left to right and calls each stage exactly once
 func c14chain(c *fw.Ctx, idx int, r *rand.Rand) {
+	if (idx/5)%10 == 0 {
+		// a stage whose result is a nil value of an interface type with methods (error): the next stage receives it as
+		// f(x) does, in every form
+		fn := []string{"fnoerr", "fsomeerr"}[(idx/50)%2]
+		plain := "fdescribe(" + fn + `("a"))`
+		ref, refLog := c14exec(plain)
+		c.Begin(idx, map[string]interface{}{"interface_typed_result_passed_on": plain})
+		defer c.End()
+		c.Count("chains_passing_on_interface_typed_results", 1)
+		for _, form := range []string{fn + `("a") | fdescribe`, fn + `("a") | fdescribe(_)`, fn + `: "a" | fdescribe`, `"a" | ` + fn + ` | fdescribe`} {
+			got, log := c14exec(form)
+			c.Eval(1)
+			if ref.Failed() || got.Failed() || got.Out != ref.Out || fmt.Sprint(log) != fmt.Sprint(refLog) || len(log) != 2 {
+				c.Violation("c14:chain:interface-typed-result", "", fmt.Sprintf("%s -> %s calls %v\n%s -> %s calls %v", form, got, log, plain, ref, refLog))
+				return
+			}
+		}
+		c.Distinct("chain-iface|" + fn)
+		return
+	}
 	stages := []string{"f1", "obj.M1", "jf", "fvs", "f2: 5", "fv: 1, 2", "f3(_, 3, \"z\")", "f3(\"y\", 4, _)", "pobj.P2: 9", "fv(\"h\", 7, _)"}
 	nested := map[string]string{"f1": "f1(%s)", "obj.M1": "obj.M1(%s)", "jf": "jf(%s)", "fvs": "fvs(%s)", "f2: 5": "f2(%s, 5)", "fv: 1, 2": "fv(%s, 1, 2)",
 		"f3(_, 3, \"z\")": "f3(%s, 3, \"z\")", "f3(\"y\", 4, _)": "f3(\"y\", 4, %s)", "pobj.P2: 9": "pobj.P2(%s, 9)", "fv(\"h\", 7, _)": "fv(\"h\", 7, %s)"}
@@ -394,7 +423,7 @@ func c14errors(c *fw.Ctx, idx int, r *rand.Rand) {
 }
 
 func c14builtins(c *fw.Ctx, idx int, r *rand.Rand) {
-	words := []string{"Hello", "wORLD", "", " padded\t", "a,b,c", "<b>&\"'", "Ünï çödé", "aaa", "x=1&y=2 z", "line\nbreak", "nul:\x00:end", "bad\xffutf8", "\u2028sep+plus%25"}
+	words := []string{"Hello", "wORLD", "", " padded\t", "a,b,c", "<b>&\"'", "Ünï çödé", "aaa", "x=1&y=2 z", "line\nbreak", "nul:\x00:end", "bad\xffutf8", "\u2028sep+plus%25", "\u00a0nbsp\u00a0", "\u3000wide\u2003", "\u0085nel\u0085"}
 	w := func() string { return words[r.Intn(len(words))] }
 	q := func(s string) string { return fmt.Sprintf("%q", s) }
 	s1, s2, s3 := w(), w(), w()
